@@ -271,8 +271,13 @@ func (c *Ctx) Finish(rule string, floor int, assumptions ...string) {
 	c.mu.Unlock()
 	if c.ReplayPath == "" {
 		b, _ := json.MarshalIndent(ev, "", " ")
-		os.MkdirAll(filepath.Join(Root, "evidence"), 0o755)
-		os.WriteFile(filepath.Join(Root, "evidence", c.Prop+".json"), append(b, '\n'), 0o644)
+		dir := filepath.Join(Root, "evidence")
+		if RepoDir() != "/repo" {
+			// development run against a scratch worktree (seeded change): never overwrite the evidence of /repo
+			dir = "/var/tmp/verif-evidence-scratch"
+		}
+		os.MkdirAll(dir, 0o755)
+		os.WriteFile(filepath.Join(dir, c.Prop+".json"), append(b, '\n'), 0o644)
 	}
 	if scratch != "" && os.Getenv("VERIF_KEEP") == "" {
 		os.RemoveAll(scratch)
